@@ -274,6 +274,8 @@ def check_c16(tier, seed):
     conv = conversions(ck, prog, seed)
     # ---- the file the daemon re-creates
     wipe_image(ck, prog, seed)
+    if tier == 'thorough':
+        kani_bytes(ck)
     ck.cov['stubs'] = ['libc::open/read/mmap/close/munmap and errno: environment; each call may fail with an arbitrary errno; read returns -1..16',
                        'a successful 16-byte read delivers an arbitrary header (bytes <-> typed fields bijection, native endian)',
                        'File::create / WriteBytesExt / write_all / stream_position / sync_all in wipe(): environment events (n bytes appended, little endian = native on the supported targets)']
@@ -282,6 +284,24 @@ def check_c16(tier, seed):
     ck.cov['rule'] = 'one obligation per (return path of ShmReader::new, clause)'
     ck.assumptions += ['POSIX contract of open/read/mmap for regular files', 'little-endian target (NativeEndian is LittleEndian in the analysed build)']
     return ck.finish()
+
+
+def kani_bytes(ck):
+    """thorough tier: the same iff at byte level with Kani's memory checks on (engine K, C model of the system calls)"""
+    from .kani_run import run_kani, harness_dir
+    import os
+    h = 'open_arbitrary_file'
+    r = run_kani(h, timeout=2400, extra=['-Z', 'c-ffi', '--c-lib', os.path.join(harness_dir(), 'env_model.c')])
+    ck.cov.setdefault('kani', {})[h] = {k: v for k, v in r.items() if k != 'out'}
+    ck.cov['queries'] += 1; ck.cov['evaluations'] += 1; ck.cov['obligations'] += 1
+    ck.cov['samples'].append({'obligation': 'Kani: ShmReader::new on every file of every length <= 72 (byte level, C model of open/read/mmap, unwind 80): outcome iff + memory safety, %s CBMC checks' % r.get('checks'),
+                              'verdict': r['verdict'], 'solver_s': r.get('solver_s')})
+    if r['verdict'] == 'successful' and (not r.get('covers') or r['covers'][0] == r['covers'][1]):
+        ck.cov['discharged'] += 1; ck.cov['distinct_nontrivial'] += 1
+    elif r['verdict'] == 'failed':
+        ck.inconclusive.append('Kani byte-level harness %s failed: %s (engine M\'s typed model is the deciding check; no native replay is wired for Kani traces of this harness)' % (h, r.get('failed_checks')))
+    else:
+        ck.inconclusive.append('Kani byte-level harness %s: %s %s' % (h, r['verdict'], r.get('out', '')[-200:]))
 
 
 def conversions(ck, prog, seed):
